@@ -24,9 +24,12 @@ def synth_arg(name, ann, variant):
     if "Callable" in s:
         if "Coroutine" in s or "Awaitable" in s:
             async def cb(*a, **k):
-                return 4242 if "int" in s else None
+                if variant == 3:
+                    raise RuntimeError("the application's handler failed")
+                return 4242 if ("int" in s and variant != 2) else None
             return cb
         return lambda *a, **k: None
+    variant = min(variant, 1) if "Callable" not in s else variant
     optional = "None" in s
     if optional and variant == 0:
         return None
@@ -67,6 +70,7 @@ async def sweep_method(loop, net, mname, variant):
     """Call one public method on a fresh connected client; return (sent ids, subscribed class names, outcome)."""
     from aioesphomeapi import api_pb2 as pb
     cli, tr = await simnet.connected_client(loop, net, api=(1, 10 if variant else 0))
+    loop.set_exception_handler(lambda l, ctx: None)      # a failing application handler is reported to the loop: not what is observed here
     conn = cli._connection
     before_handlers = {k: set(v) for k, v in conn._message_handlers.items()}
     n0 = len(tr.writes)
@@ -214,6 +218,41 @@ def run(rep, tier, seed):
             rep.violation(f"C13/inverse/id{i}", f"sending {name} uses id {PROTO_TO_MESSAGE_TYPE.get(klass)} instead of {i}",
                           {"kind": "impl-trace", "id": i, "name": name})
 
+    # the lookup is a function of the id alone: histories of ids on one connection (a registered id, then ids outside the table
+    # - once and repeated - then registered ids again) must deliver exactly the registered ones, each as its own class
+    import random as _random
+    hrng = _random.Random(seed)
+    top = max(proto_ids)
+    outside = [0, top + 1, top + 2, 200, 255, 256, 65535, 70000]
+    histories = []
+    for u in outside:
+        for k in (1, 7, top):
+            histories.append([k, u, u, k])
+            histories.append([u, u, k, u])
+            histories.append([k, u, k, u, u])
+    for _ in range(60 if tier == "quick" else 1500):
+        histories.append([hrng.choice(outside) if hrng.random() < 0.45 else hrng.choice(sorted(proto_ids)) for _ in range(hrng.randrange(2, 9))])
+    for hist in histories:
+        params = ConnectionParams(addresses=["x"], port=1, password=None, client_info="x", keepalive=20.0,
+                                  zeroconf_manager=None, noise_psk=None, expected_name=None)
+        conn = APIConnection(params, None, False, None)
+        conn._set_connection_state(ConnectionState.CONNECTED)
+        seen = []
+        for cls in set(MESSAGE_TYPE_TO_PROTO.values()):
+            conn._add_message_callback_without_remove(lambda m, seen=seen: seen.append(type(m).DESCRIPTOR.name), (cls,))
+        for i in hist:
+            try:
+                conn.process_packet(i, b"")
+            except Exception as e:  # noqa
+                seen.append("raised:" + type(e).__name__)
+        want = [proto_ids[i] for i in hist if i in proto_ids]
+        rep.case(("history", tuple(hist)), True, sample=None)
+        rep.bump("lookup-history")
+        if seen != want:
+            rep.violation("C13/lookup/history", f"frames with ids {hist} on one connection were delivered as {seen}, api.proto says {want} (ids outside the table are ignored)",
+                          {"kind": "impl-trace", "ids": hist, "delivered": seen, "expected": want})
+            break
+
     # 3. API sweep (validates gen_clientapi and checks direction on what is really sent / subscribed)
     try:
         entries, _unacc = gen_clientapi.extract()
@@ -230,7 +269,8 @@ def run(rep, tier, seed):
     for mname in public:
         if mname in skip:
             continue
-        for variant in (0, 1):
+        has_coro_cb = "Coroutine" in str(inspect.signature(getattr(APIClient, mname)))
+        for variant in ((0, 1, 2, 3) if has_coro_cb else (0, 1)):     # 2 / 3: asynchronous handlers return nothing / raise
             def go(loop, mname=mname, variant=variant):
                 net = simnet.Net(loop)
 
